@@ -61,7 +61,11 @@ pub fn shadow_optimum(s: &SPDC) -> Value {
   let io = outcome(|| IdlerBeam::try_new_optimum(&signal, &s.pump, &cs1, &s.pp));
   orc.insert("idler_theta".into(), match &io.3 { Some(b) if (*(b.theta_internal() / RAD)).is_finite() => fx(*(b.theta_internal() / RAD)), _ => Value::Null });
   steps.push(json!({"step": "idler_optimum", "class": io.0, "msg": io.1, "loc": io.2}));
-  for b in [&*signal, &*s.idler] {
+  let mut beams: Vec<Beam> = vec![(*signal).clone(), (*s.idler).clone()];
+  if let Some(b) = &io.3 {
+    beams.push((**b).clone()); // the NEW idler (what a repaired try_as_optimum would use)
+  }
+  for b in beams.iter() {
     let z = guarded_loc(|| *(cs1.optimal_waist_position(b.vacuum_wavelength(), b.polarization()) / M)).unwrap_or(f64::NAN);
     waist_pos.push(json!({"wavelength": fx(*(b.vacuum_wavelength() / M)), "pol": pol_s(b.polarization()),
                           "r": if z.is_finite() { fx(z) } else { Value::Null }}));
